@@ -206,7 +206,9 @@ def isolated_eval(payload):
     _apply_knobs(payload.get("knobs"))
     pool_objs = _decode_pool(payload["pool"])
     op = payload["op"]
-    w = W.SimWorld(1, {"latency": "instant", "reply": "canonical", "faults": []}, id_offset=5_000_000)
+    cfg = {"latency": "instant", "reply": "canonical", "faults": []}
+    cfg.update(payload.get("native") or {})
+    w = W.SimWorld(1, cfg, id_offset=5_000_000)
     res = {"exc": None, "solved": None, "objective": None, "routes": None}
     with W.active(w):
         try:
@@ -297,6 +299,9 @@ def execute(spec):
                             ob = canon(m.get_objective_value()) if st else None
                             nr = _summ_solution(op["class"] if "class" in op else I["class"], m.get_solution()) if st else None
                             I["solves"].append({"solved": st, "objective": ob, "routes": nr, "faulted": sum(sim.fired.values()) > f0, "inv": [a, sim.inv]})
+                            # a re-solve may legitimately deliver another optimum: getters are compared between solves only
+                            I["sols"].append(None)
+                            I["objs"].append(None)
                             solved_any = solved_any or st
                         elif k == "get_solution":
                             if m.is_solved():
@@ -336,7 +341,22 @@ def execute(spec):
             else:
                 if first["solved"] != ref["solved"] or (first["solved"] and (not _close(first["objective"], ref["objective"]) or
                                                                                (first["routes"] != ref["routes"] and cname.startswith("k") is False))):
-                    V("result_depends_on_history", cname, {"in_history": first, "isolated": ref})
+                    # solver-truthfulness cross-check: does the isolated evaluation itself give another answer under
+                    # other native solver configurations?  then the difference is the solver's, not the history's
+                    from sim import crosscheck
+                    op_ = [o for o in world["ops"] if o["op"] == "construct" and o["h"] == h][0]
+                    alts = []
+                    for c in crosscheck.CONFIGS[1:]:
+                        try:
+                            alts.append(refserver.evaluate({"module": "props.c18", "fn": "isolated_eval", "timeout": 100,
+                                                            "payload": {"pool": world["pool"], "op": op_, "knobs": world.get("knobs"), "native": c}}))
+                        except Exception:
+                            pass
+                    stable = all((a.get("solved") == ref.get("solved") and _close(a.get("objective"), ref.get("objective")) and a.get("routes") == ref.get("routes")) for a in alts)
+                    if stable:
+                        V("result_depends_on_history", cname, {"in_history": first, "isolated": ref})
+                    else:
+                        counters["solver_not_truthful_discrepancy_dismissed"] = counters.get("solver_not_truthful_discrepancy_dismissed", 0) + 1
         clean = [s for s in I["solves"] if not s.get("faulted") and "exc" not in s]
         for a, b in zip(clean[:-1], clean[1:]):
             if a["solved"] != b["solved"] or not _close(a["objective"], b["objective"]) or a["routes"] != b["routes"]:
@@ -344,11 +364,11 @@ def execute(spec):
                 break
         if not any(s.get("faulted") for s in I["solves"]):
             for a, b in zip(I["sols"][:-1], I["sols"][1:]):
-                if a != b:
+                if a is not None and b is not None and a != b:
                     V("get_solution_not_repeatable", cname, {"first": a, "second": b})
                     break
             for a, b in zip(I["objs"][:-1], I["objs"][1:]):
-                if a != b:
+                if a is not None and b is not None and a != b:
                     V("get_objective_value_not_repeatable", cname, {"first": a, "second": b})
                     break
     seen, uniq = set(), []
